@@ -811,6 +811,8 @@ def _c18(work, v, tier, seed):
     rnd = __import__("random").Random(1000 + seed)
     def simplex():
         x = [rnd.uniform(0.02, 1.0) for _ in range(4)]
+        if rnd.random() < 0.2:      # next to a face of the simplex: one frequency of 1e-5 .. 1e-3
+            x[rnd.randrange(4)] = 10 ** rnd.uniform(-5, -3)
         t = sum(x)
         x = [a / t for a in x[:3]]
         return [repr(a) for a in x] + [repr(1.0 - sum(x))]
@@ -819,6 +821,9 @@ def _c18(work, v, tier, seed):
         lines.append(json.dumps({"model": "f81", "p": [], "pi": simplex()}, separators=(",", ":")))
     for _ in range(nother):
         k1, k2 = repr(rnd.uniform(0.2, 8)), repr(rnd.uniform(0.2, 8))
+        if rnd.random() < 0.25:     # slowly mixing chains
+            k1 = repr(rnd.uniform(8, 60))
+        lines.append(json.dumps({"model": "k2p", "p": [k1], "pi": []}, separators=(",", ":")))
         lines.append(json.dumps({"model": "f84", "p": [k1], "pi": simplex()}, separators=(",", ":")))
         lines.append(json.dumps({"model": "tn93", "p": [k1, k2], "pi": simplex()}, separators=(",", ":")))
         lines.append(json.dumps({"model": "gtr", "p": [repr(rnd.uniform(0.2, 5)) for _ in range(6)], "pi": simplex()}, separators=(",", ":")))
